@@ -266,3 +266,53 @@ Proof.
   { apply count_false. intros x Hx. apply In_nth_error in Hx as (k & Hk). rewrite (All _ _ Hk). reflexivity. }
   rewrite Z, Hc in M1. cbn in M1. lia.
 Qed.
+
+(* ---- a generation that ended on its own is still joined before the group moves on ---- *)
+Definition inv7 (s : state) : Prop :=
+  forall k g, cur_gen (gph s) = Some k -> nth_error (gens s) k = Some g -> g_conn g = true.
+
+Lemma inv7_step : forall s l s', inv7 s -> step s l = Some s' -> inv7 s'.
+Proof.
+  intros s l s' I St. unfold inv7 in *.
+  destruct l;
+  try solve [ step_inv St; unf; try rewrite reply_all_calls_only; destr_goal; intros kk gg Hc Hn; cbn in *; rw_ph; cbn in *;
+              try discriminate; eauto;
+              try (rewrite nth_upd in Hn; destruct (Nat.eqb_spec _ kk); [subst; destr_in Hn; try discriminate; injection Hn as Hn; subst gg; cbn; eauto|eauto]) ].
+  - (* LGOfetch *)
+    step_inv St; unf; destr_goal; intros kk gg Hc Hn; cbn in *; rw_ph; cbn in *; try discriminate; eauto.
+    injection Hc as Hc; subst kk. rewrite nth_app_last in Hn. injection Hn as Hn; subst gg. reflexivity.
+  - (* LGClose *)
+    step_inv St; unf; destr_goal; intros kk gg Hc Hn; cbn in *; rw_ph; cbn in *; try discriminate; eauto.
+    all: injection Hc as Hc; subst kk; rewrite (nth_upd_eq _ _ _ _ _ Heqo) in Hn; injection Hn as Hn; subst gg; cbn; eapply I; eauto.
+  - (* LFnHandler *)
+    step_inv St; unf; destr_goal; intros kk gg Hc Hn; cbn in *; rw_ph; cbn in *; try discriminate; eauto.
+    all: rewrite nth_upd in Hn; destruct (Nat.eqb_spec (n_gen f0) kk);
+         [subst kk; rewrite Heqo0 in Hn; injection Hn as Hn; subst gg; cbn; eapply I; eauto|eauto].
+Qed.
+
+Lemma inv7_reach : forall c ls s, run step (init c) ls = Some s -> inv7 s.
+Proof.
+  intros c. apply reach_ind; [|apply inv7_step].
+  intros k g H. cbn in H. destruct (c_group c); discriminate.
+Qed.
+
+(* A generation is over for ConsumerGroup.run — its coordinator connection closed (the deferred
+   conn.Close() of nextGeneration), the next JoinGroup possible — only when every function that
+   Generation.Start accounted on it has run its exit handler, no matter whether the generation was
+   closed by Close or had already ended on its own (failed heartbeat, a function returning):
+   gen.close() reaches <-g.joined on every path. *)
+Theorem generation_joined_proof : forall c ls s, run step (init c) ls = Some s ->
+  (forall k g, nth_error (gens s) k = Some g -> g_conn g = false ->
+     acc_exited k s = true /\ g_done g = true /\ cur_gen (gph s) <> Some k) /\
+  (cur_gen (gph s) = None -> forall k g, nth_error (gens s) k = Some g ->
+     acc_exited k s = true /\ g_conn g = false /\ g_done g = true) /\
+  (forall k w, gph s = GCloseWait k w -> acc_exited k s = false -> step s LGJoined = None).
+Proof.
+  intros c ls s R. destruct (invs_reach _ _ _ R) as [_ I2]. pose proof (inv7_reach _ _ _ R) as I7.
+  split; [|split].
+  - intros k g Hk Hc. destruct (j_past _ I2 k g Hk) as [A|(A & B & C)].
+    + rewrite (I7 k g A Hk) in Hc. discriminate.
+    + split; [exact A|]. split; [exact C|]. intros E. rewrite (I7 k g E Hk) in Hc. discriminate.
+  - intros N k g Hk. destruct (j_past _ I2 k g Hk) as [A|(A & B & C)]; [congruence|]. split; [exact A|]. split; assumption.
+  - intros k w E Ha. unfold step. destruct (panicked s); [reflexivity|]. rewrite E, Ha. reflexivity.
+Qed.
